@@ -75,6 +75,10 @@ func (dec *Decoder) Decode(v any) error {
 	if dec.err != nil {
 		return dec.err
 	}
+	if k, n := dec.dec.StackIndex(dec.dec.StackDepth()); k == '{' && n%2 == 0 {
+		// Historically, v1 refused to decode a value where an object name is expected.
+		return &SyntaxError{msg: "not at beginning of value", Offset: dec.InputOffset()}
+	}
 	b, err := dec.dec.ReadValue()
 	if err != nil {
 		dec.err = transformSyntacticError(err)
